@@ -64,7 +64,7 @@ def SameHead : Obj → Obj → Prop
   | _, _ => False
 
 def Evolves (chk : Ref → Bool) (o o' : Obj) : Prop :=
-  SameHead o o' ∧ (∀ c, c ∈ kids o' → c ∈ kids o) ∧ ((refsOf o).all chk = true → (refsOf o').all chk = true)
+  SameHead o o' ∧ List.Sublist (kids o') (kids o) ∧ ((refsOf o).all chk = true → (refsOf o').all chk = true)
 
 def StepImp (chk : Ref → Bool) (h h' : Heap) : Prop :=
   ∀ a o, h.read a = some o → ∃ o', h'.read a = some o' ∧ Evolves chk o o'
@@ -86,10 +86,10 @@ theorem SameHead.trans {o1 o2 o3 : Obj} (a : SameHead o1 o2) (b : SameHead o2 o3
     obtain ⟨b1, b2, b3⟩ := b
     exact ⟨b1.trans a1, b2.trans a2, b3.trans a3⟩
 
-theorem Evolves.refl (chk : Ref → Bool) (o : Obj) : Evolves chk o o := ⟨SameHead.refl o, fun _ h => h, fun h => h⟩
+theorem Evolves.refl (chk : Ref → Bool) (o : Obj) : Evolves chk o o := ⟨SameHead.refl o, List.Sublist.refl _, fun h => h⟩
 
 theorem Evolves.trans {chk : Ref → Bool} {o1 o2 o3 : Obj} (a : Evolves chk o1 o2) (b : Evolves chk o2 o3) : Evolves chk o1 o3 :=
-  ⟨a.1.trans b.1, fun c hc => a.2.1 c (b.2.1 c hc), fun h => b.2.2 (a.2.2 h)⟩
+  ⟨a.1.trans b.1, b.2.1.trans a.2.1, fun h => b.2.2 (a.2.2 h)⟩
 
 theorem StepImp.refl (chk : Ref → Bool) (h : Heap) : StepImp chk h h := fun a o hr => ⟨o, hr, Evolves.refl chk o⟩
 
@@ -158,7 +158,7 @@ theorem fieldShape_keep {chk : Ref → Bool} {h h' : Heap} (st : StepImp chk h h
     | field f' =>
       have := hrefs (by simpa [refsOf] using hs.1)
       simp only [fieldShape, readField_of_read hr', Bool.and_eq_true, List.all_eq_true]
-      exact ⟨by simpa [refsOf] using this, fun c hc => argShape_keep st c (hs.2 c (hk c (by simpa [kids] using hc)))⟩
+      exact ⟨by simpa [refsOf] using this, fun c hc => argShape_keep st c (hs.2 c (hk.subset (by simpa [kids] using hc)))⟩
     | type _ => simp [SameHead] at hd
     | arg _ => simp [SameHead] at hd
     | dir _ => simp [SameHead] at hd
@@ -174,7 +174,7 @@ theorem dirShape_keep {chk : Ref → Bool} {h h' : Heap} (st : StepImp chk h h')
     cases o' with
     | dir d' =>
       simp only [dirShape, readDir_of_read hr', List.all_eq_true]
-      exact fun c hc => argShape_keep st c (hs c (hk c (by simpa [kids] using hc)))
+      exact fun c hc => argShape_keep st c (hs c (hk.subset (by simpa [kids] using hc)))
     | type _ => simp [SameHead] at hd
     | arg _ => simp [SameHead] at hd
     | field _ => simp [SameHead] at hd
@@ -204,7 +204,7 @@ theorem typeShape_keep {chk : Ref → Bool} {h h' : Heap} (st : StepImp chk h h'
       simp only [SameHead] at hd
       rw [typeShape_eq chk h' a t' (readType_of_read hr'), Bool.and_eq_true]
       exact ⟨by simpa [refsOf] using hrefs (by simpa [refsOf] using hs.1),
-             typeMembersOK_sub st t t' hd.1 (fun c hc => hk c (by simpa [kids] using hc)) hs.2⟩
+             typeMembersOK_sub st t t' hd.1 (fun c hc => hk.subset (by simpa [kids] using hc)) hs.2⟩
     | field _ => simp [SameHead] at hd
     | arg _ => simp [SameHead] at hd
     | dir _ => simp [SameHead] at hd
@@ -268,25 +268,25 @@ theorem healedRefs_ok (reg : List (String × Addr)) (rs : List Ref) : (healedRef
 
 theorem write_arg_ty (chk : Ref → Bool) (h : Heap) (a : Addr) (g : ArgO) (t : TRef) (hg : h.readArg a = some g) (ht : chk t.base = true)
     (hsn : sameNames g.ty t) : StepImp chk h (h.write a (.arg { g with ty := t })) :=
-  step_write chk h a _ _ (readArg_read hg) ⟨⟨rfl, rfl, rfl, rfl, hsn⟩, fun c hc => by simpa [kids] using hc, fun _ => by simpa [refsOf] using ht⟩
+  step_write chk h a _ _ (readArg_read hg) ⟨⟨rfl, rfl, rfl, rfl, hsn⟩, List.Sublist.refl _, fun _ => by simpa [refsOf] using ht⟩
 
 theorem write_field_ty (chk : Ref → Bool) (h : Heap) (a : Addr) (f : FieldO) (t : TRef) (hf : h.readField a = some f) (ht : chk t.base = true)
     (hsn : sameNames f.ty t) : StepImp chk h (h.write a (.field { f with ty := t })) :=
-  step_write chk h a _ _ (readField_read hf) ⟨⟨rfl, rfl, rfl, rfl, rfl, rfl, hsn⟩, fun c hc => by simpa [kids] using hc, fun _ => by simpa [refsOf] using ht⟩
+  step_write chk h a _ _ (readField_read hf) ⟨⟨rfl, rfl, rfl, rfl, rfl, rfl, hsn⟩, List.Sublist.refl _, fun _ => by simpa [refsOf] using ht⟩
 
 theorem write_type_fields (chk : Ref → Bool) (h : Heap) (a : Addr) (t : TypeO) (kept : List Addr) (ht : h.readType a = some t)
-    (hk : ∀ c, c ∈ kept → c ∈ t.fields) : StepImp chk h (h.write a (.type { t with fields := kept })) :=
-  step_write chk h a _ _ (readType_read ht) ⟨⟨rfl, rfl, rfl, rfl, rfl, rfl, rfl⟩, fun c hc => by simpa [kids] using hk c (by simpa [kids] using hc),
+    (hk : List.Sublist kept t.fields) : StepImp chk h (h.write a (.type { t with fields := kept })) :=
+  step_write chk h a _ _ (readType_read ht) ⟨⟨rfl, rfl, rfl, rfl, rfl, rfl, rfl⟩, by simpa [kids] using hk,
     fun hr => by simpa [refsOf, typeRefs] using hr⟩
 
 theorem write_type_ifaces (chk : Ref → Bool) (h : Heap) (a : Addr) (t : TypeO) (new : List Ref) (ht : h.readType a = some t)
     (hn : new.all chk = true) : StepImp chk h (h.write a (.type { t with ifaces := new })) :=
-  step_write chk h a _ _ (readType_read ht) ⟨⟨rfl, rfl, rfl, rfl, rfl, rfl, rfl⟩, fun c hc => by simpa [kids] using hc, fun hr => by
+  step_write chk h a _ _ (readType_read ht) ⟨⟨rfl, rfl, rfl, rfl, rfl, rfl, rfl⟩, List.Sublist.refl _, fun hr => by
     cases hk : t.kind <;> simp_all [refsOf, typeRefs]⟩
 
 theorem write_type_members (chk : Ref → Bool) (h : Heap) (a : Addr) (t : TypeO) (new : List Ref) (ht : h.readType a = some t)
     (hn : new.all chk = true) : StepImp chk h (h.write a (.type { t with members := new })) :=
-  step_write chk h a _ _ (readType_read ht) ⟨⟨rfl, rfl, rfl, rfl, rfl, rfl, rfl⟩, fun c hc => by simpa [kids] using hc, fun hr => by
+  step_write chk h a _ _ (readType_read ht) ⟨⟨rfl, rfl, rfl, rfl, rfl, rfl, rfl⟩, List.Sublist.refl _, fun hr => by
     cases hk : t.kind <;> simp_all [refsOf, typeRefs]⟩
 
 /-! ### visitors as steps -/
